@@ -14,6 +14,11 @@
 
 // Package main implements the goderive binary.
 // This pulls in all the plugins, parses the flags and runs the generators using the derive library.
+//
+// Type aliases are resolved by the type checker (gotypesalias=0): the plugins tell types apart by what go/types
+// hands them, and only the type that an alias names has the methods and the shape that they look at.
+//
+//go:debug gotypesalias=0
 package main
 
 import (
